@@ -5,7 +5,7 @@
     presorted on inputs sorted by the operator's key with an independent reference sorter) x pass 1/2:
     header and row SEQUENCE must equal the default call on the same inputs.
 (B) E1: all histories up to length 3 (4 thorough) over {edit source 1, edit source 2, full pass, partial
-    pass} on operators over editable, pull-counting sources x cache on/off x buffersize None/1:
+    pass, arm a transient source failure} on operators over editable, pull-counting sources x cache on/off x buffersize None/1:
     cache=False: every complete pass equals a freshly built operator on the sources' current contents;
     cache=True: after a completed pass every later complete pass yields the same rows and pulls nothing.
 """
@@ -238,7 +238,7 @@ def _sig(kw, cfg):
 # ---- (B) histories --------------------------------------------------------------------------------
 
 class HistHarness(object):
-    EVENTS = ('pass', 'edit1', 'partial', 'edit2')
+    EVENTS = ('pass', 'edit1', 'partial', 'edit2', 'arm')
 
     def __init__(self, cfg):
         self.cfg = dict(cfg)
@@ -304,7 +304,11 @@ class HistHarness(object):
             w['last'] = None
             w['after_edit'] = True
             return ('edited',)
+        if ev == 'arm':
+            srcs[0].arm()       # the next iterator over source 1 raises at its last data row, once
+            return ('armed',)
         before = [s.pulls for s in srcs]
+        armed_before = srcs[0].armed is not None
         try:
             if ev == 'pass':
                 rows = [freeze(r) for r in w['view']]
@@ -322,14 +326,17 @@ class HistHarness(object):
         except Exception as e:
             obs = ('exc', type(e).__name__, str(e)[:80])
         pulled = sum(s.pulls for s in srcs) - sum(before)
+        w['injected'] = armed_before and srcs[0].armed is None    # this pass consumed the armed failure
         w['last'] = (ev, pulled)
         return obs + (('pulled', pulled),)
 
     def step_check(self, w, ev, obs):
-        if ev in ('edit1', 'edit2'):
+        if ev in ('edit1', 'edit2', 'arm'):
             return None
         pulled = obs[-1][1]
         if obs[0] == 'exc':
+            if obs[1] == 'Boom' and w.get('injected'):
+                return None     # the injected transient failure surfaced: this pass did not complete
             return (None, obs, 'pass raises')
         if ev == 'partial':
             return None
@@ -435,7 +442,7 @@ def bounds(tier, seed):
     return {'operators': list(OPS), 'unary_tables': len(unary_tables(tier, seed)),
             'binary_pairs': len(binary_tables('j', tier, seed)),
             'strategy_tuples_per_input(n=2)': len(strategies(OPS['join'], 2, '/x')),
-            'history_depth': 3 if tier == 'quick' else 4, 'history_alphabet': list(HistHarness.EVENTS)}
+            'history_depth': 3 if tier == 'quick' else 4, 'history_alphabet': list(HistHarness.EVENTS) + ['(arm = next pass over source 1 fails once at its last row)']}
 
 
 def run_item(item, acc):
